@@ -26,7 +26,7 @@ LOOP_ASSUME = [
     "the network is the simulator in harness/vh/src/sim.rs: routers answer the bytes the tracer really sent; Linux socket semantics; virtual clock",
     "ground-truth labels (genuine/dup/late/foreign/never) are assigned by the simulator, which knows which probe every delivery answers",
     "implementation thread schedule: single-threaded runs; times are exact virtual microseconds",
-]
+    "responses delayed by more than one whole round are not delivered: only the immediately preceding round's sequence numbers are kept apart from the current round's (C07), older ones may have been re-used legitimately"]
 
 
 MODEL_RULE = ("model: TLC explores every interleaving of the tracer loop with the environment for every configuration record in the named set (spec/mc/MC_Sched.tla); "
@@ -100,6 +100,9 @@ def c07(ctx):
     gen_walks(ctx, walks, 60 if q else 600)
     ctx.sim("seqwalk", 8 if q else 150, "mon/MonSeq.tla", "MonSeq.cfg", subcmd="seqwalk", extra_args=["--walks", walks], batch=50 if not q else 8)
     ctx.sim("storm", 120 if q else 1500, LOOP, "MonLoop_C07.cfg", nontrivial=has_fault, conf=CONF)
+    # long runs through the real dispatch: the Dublin / IPv6 payload derived from the sequence offset must fit its buffer,
+    # and every regime crosses its wrap-around point
+    ctx.sim("long", 8 if q else 120, LOOP, "MonLoop_C07.cfg", seed_off=4, nontrivial=has_genuine, conf=CONF, batch=4 if q else 20)
     ctx.write_evidence("model_checking", "model: SeqAlloc.tla at the real constants (65535 / 512), every round size in the named set from every reachable round-start sequence; "
                        "implementation: distinct (regime, initial sequence, walk length) walks over the real TracerState + distinct TCP collision-storm scenarios in which the fault fired",
                        assumptions=LOOP_ASSUME + ["walks call the private TracerState through the add-only verif-hooks wrapper TracerStateProbe"])
